@@ -1,7 +1,7 @@
 SPECIFICATION TraceSpec
 CONSTANTS
   MaxH = 5
-  Rounds = {0}
+  Rounds = {0, 1}
   Kinds = {"I-", "I+", "A-"}
   NVar = 2
   Proposers = {"p1", "p2"}
